@@ -407,6 +407,15 @@ int main(int argc, char** argv)
         add(r33, 0, { "K,2,1,100,b", "K,2,100,1,b", "K,3,2,2,a" }, 1, true, 300000);
         add(tm, 1, { "U,2", "K,2,1,1,b" }, 1, true, 300000);
     }
+    // capped jobs (first schedules only) and low bounds first: the time they leave unused rolls
+    // over to the long searches at the end
+    std::stable_sort(jobs.begin(), jobs.end(),
+                     [](const Job& x, const Job& y)
+                     {
+                         auto cost = [](const Job& j)
+                         { return (j.cap >= 0 && j.cap <= 3000 ? 0 : 100) + 10 * j.bound + static_cast<int>(j.sc.ops.size()); };
+                         return cost(x) < cost(y);
+                     });
     double budget = a.deadline_s;
     for (std::size_t ji = 0; ji < jobs.size(); ++ji)
     {
